@@ -127,6 +127,7 @@ def judge_pair(name, g, w, check_output):
 
 class RelSpec(Spec):
     prop = 'C05'
+    case_timeout = 1800          # one case = one shard of many evaluations
     batch = 1
     title = 'check_output vs the documented relation and its laws'
 
